@@ -71,13 +71,19 @@ def step (_ : Unit) (pre post : List String) : Unit × Verdict :=
           { addrs := addrs, lookup := lookupIn recs, chain := chain, count := count, maxChains := maxch,
             enforce := enforceAt featH refH, stream := fun i => idx.getD i total }
         let m := renderResult (newSessionNodes cfg (idx.length + 1))
-        -- the implementation's answer
-        let (impl, same) := match post with
-          | [a, b, c] => (s!"{a} {b}", c)
-          | [a, c] => (a, c)
-          | _ => ("?", "?")
+        -- the implementation's answer: result words, then `same|differs:…` (second generation), then
+        -- `intact|mutated` (the candidate list after the generation)
+        let (resWords, same, mutw) := match post.reverse with
+          | mw :: sm :: rest => (rest.reverse, sm, mw)
+          | _ => ([], "?", "?")
+        let impl := " ".intercalate resWords
+        let post := resWords ++ [same]
         let ctx := s!"count={count} total={total} enforce={enforceAt featH refH}"
-        if same ≠ "same" then .propfail "session-nondeterministic" s!"{ctx} first={impl} second={same}"
+        if impl = "TIMEOUT" || (same.splitOn "TIMEOUT").length > 1 then
+          .propfail "session-generation-did-not-terminate" s!"{ctx}: NewSessionNodes did not return within the watchdog limit (first={impl} second={same})"
+        else if mutw ≠ "intact" then
+          .propfail "candidates-mutated" s!"{ctx}: the candidate list returned by GetValidatorsByChain (the cached slice) was modified by the generation; first={impl}"
+        else if same ≠ "same" then .propfail "session-not-deterministic" s!"{ctx} first={impl} second={same}"
         else
           let elig := addrs.filter (eligible cfg)
           let spec : Option Verdict :=
